@@ -128,7 +128,30 @@ def check_config(cfg, db, chk):
         chk.ob("reinsert-only-on-error", "%s: %s" % (cfg, p.self_ty), ok, "REGISTRY.insert must be reachable only through the Err arm of the persist result", "%s:%d" % (p.file, p.line), key="reinsert-on-err|%s|%s" % (cfg, p.self_ty))
 
 
+def handler_is_stateless(cfg, db, chk):
+    """every signal scans the whole registry: the cleanup keeps no state of its own between invocations - inside
+    cleanup_tempfiles_signal_safe (and its closures) atomics/statics are only loaded, never stored, swapped or updated (a tempfile that was
+    temporarily out of the registry, or whose shard was locked, during one signal must be found by the next one)."""
+    fs = [f for f in db.by_crate["gix_tempfile"] if "registry::cleanup_tempfiles_signal_safe" in f.name and f.kind != "promoted"]
+    chk.floor("[%s] cleanup_tempfiles_signal_safe bodies" % cfg, len(fs), 1)
+    loads = sum(1 for f in fs for c in f.calls() if c.is_(r"sync::atomic::Atomic\w*(::<\w+>)?::load$"))
+    writes = [(f, c) for f in fs for c in f.calls() if c.is_(r"sync::atomic::Atomic\w*(::<\w+>)?::(store|swap|fetch_\w+|compare_exchange\w*)$")]
+    for f, c in writes:
+        chk.ob("signal-cleanup-keeps-no-state", "[%s] %s" % (cfg, c.name.split("::")[-1]), False,
+               "the signal-safe cleanup updates a static (%s): state carried from one signal to the next lets it skip registry entries it could not take the first time" % c.name,
+               c.where(), key="handler-state|%s|%s" % (cfg, c.name.split("::")[-1]))
+    if not writes:
+        chk.ob("signal-cleanup-keeps-no-state", "[%s] cleanup_tempfiles_signal_safe (%d atomic loads, 0 writes)" % (cfg, loads), True)
+    # the scan starts at index 0
+    for f in fs:
+        for bi, si, pl, rv, ln, mc in f.assigns():
+            if rv[0] == "agg" and rv[1] == "adt" and rv[2].endswith("ops::range::Range") and len(rv[4]) == 2:
+                chk.ob("signal-cleanup-scans-from-zero", "[%s] registry index range" % cfg, "p" not in rv[4][0] and rv[4][0].get("v") == 0,
+                       "the registry scan does not start at index 0", "%s:%d" % (f.file, ln), key="handler-scan-start|%s" % cfg)
+
+
 def run(db, chk):
+    handler_is_stateless("ws", db, chk)
     check_config("ws", db, chk)
     db2 = facts.load("tf-nohp")
     check_config("tf-nohp", db2, chk)
